@@ -399,4 +399,28 @@ def r8_builtin_formulas(ctx):
         ctx.check(ok, f.qual + "#formula", f"= {forms[0]}" if ok else f"evaluates to {got!r}, which is not the documented {forms[0]}", where=f, node=[r for r in returns_of(f)][0], facts={"normal_form": repr(got)[:300]})
 
 
-RULES = [r8_builtin_formulas, r1_extent_check, r2_upper_bound, r3_same_range_both_sides, r4_accumulation_and_pairing, r5_weights_reach_function, r6_builtins_use_inputs, r7_checks_precede_optimiser]
+def r9_resimulated_data_layout(ctx):
+    """The simulated data returned with the champions is read from the re-simulation in the layout the re-simulation produces: _apply_parameters runs run_pipeline(with_inherited_coords=<L>); extract_data_3d must address the buckets as '/bucket/<name>' when <L> is True and as '<name>' when it is False - otherwise the returned (lazy) simulated data raises as soon as it is computed."""
+    ap = ctx.func(f"{FD}._apply_parameters")
+    runs = stmt_calls(ap, ctx.R, {"pyxel.exposure.exposure:run_pipeline"})
+    ex = ctx.func("pyxel.calibration.archipelago_datatree:extract_data_3d")
+    if len(runs) != 1:
+        ctx.fail(ap.qual + "#resimulate", f"{len(runs)} run_pipeline calls in the re-simulation", where=ap, node=ap.node)
+        return
+    lay = kw(runs[0], "with_inherited_coords")
+    hier = isinstance(lay, ast.Constant) and lay.value is True
+    flat = lay is None or (isinstance(lay, ast.Constant) and lay.value is False)
+    keys = []
+    for sub in ast.walk(ex.node):
+        if isinstance(sub, ast.Subscript) and isinstance(sub.slice, ast.Constant) and isinstance(sub.slice.value, str) and dotted(sub.value) == "data_tree":
+            keys.append((sub.slice.value, sub))
+    ctx.floor(len(keys), 3)
+    for k, node in keys:
+        in_bucket = k.lstrip("/").startswith("bucket/")
+        ok = (hier and in_bucket) or (flat and not in_bucket)
+        if not (hier or flat):
+            ok = False
+        ctx.check(ok, f"{ex.qual}#layout:{k.split('/')[-1]}", f"reads '{k}' from the layout the re-simulation produces" if ok else f"reads data_tree['{k}'] but the re-simulation (_apply_parameters: with_inherited_coords={norm(lay)}) stores the buckets {'under /bucket' if hier else 'at the root'}: computing the returned simulated data raises KeyError", where=ex, node=node)
+
+
+RULES = [r9_resimulated_data_layout, r8_builtin_formulas, r1_extent_check, r2_upper_bound, r3_same_range_both_sides, r4_accumulation_and_pairing, r5_weights_reach_function, r6_builtins_use_inputs, r7_checks_precede_optimiser]
